@@ -11,6 +11,8 @@
     legend  cat   <V> v*V <k> d*k <nc> (r g b)*nc <names?: none | k name*k> <contColors?> <contLegend>
                   <vertical> <decimals> <ils?> <segH?> <segW?> <textH?>
     graphic <minx> <miny> <maxx> <maxy> plain|cat <legend arguments as above>
+    gtype   <minx> <miny> <maxx> <maxy> <unit_descr?: none | k (key text)*k> plain|cat <legend arguments>
+            (round 4: GraphicContainer with a data type; answer laid out as for `legend`)
     fmt <x> <n>                                            -> `'%.nf' % x`
     crhist <cont> <nc> (r g b)*nc <k> d*k <nops> op*       -> `ok || out || out ...` (one per op)
         op: c <cols> | d <dom> | r <v> | s | u
@@ -23,6 +25,7 @@
 import Ladybug.DrvCore
 import Ladybug.Model.Legend
 import Ladybug.Model.C15Obj
+import Ladybug.Model.C15Graphic
 
 open Drv Col Leg
 
@@ -172,6 +175,17 @@ def runGraphic (box : Option (Rat × Rat × Rat × Rat))
         showE showColors g.legend.segmentColors,
         s!"{showRat g.legend.segH} {showRat g.legend.segW} {showRat g.legend.textH}",
         toString g.legend.textPoints.length]
+  | some _, some ((_, .error e), _) => showErr e
+  | _, _ => "bad-op"
+
+/-- `gtype <box> <unit_descr?> plain|cat <legend arguments>`: the legend of a typed container. -/
+def runGType (box : Option (Rat × Rat × Rat × Rat)) (ud : Option (List (Int × String)))
+    (r : Option ((List Rat × Except Err Par) × List String)) : String :=
+  match box, r with
+  | some (x0, y0, x1, y1), some ((vals, .ok p), _) =>
+    match Graphic.makeTyped vals p ud x0 y0 x1 y1 with
+    | .error e => showErr e
+    | .ok g => showLegend g.legend
   | some _, some ((_, .error e), _) => showErr e
   | _, _ => "bad-op"
 
@@ -391,6 +405,11 @@ def handle (toks : List String) : String :=
       | .error e => showErr e
       | .ok cr => "ok " ++ " ; ".intercalate (vals.map (showExactOf cr))
     | none => "bad-op"
+  | "gtype" :: a :: b :: c :: d :: rest =>
+    match (pOpt (pList (do let k ← pInt; let t ← tok; pure (k, t)))) rest with
+    | some (ud, "plain" :: r2) => runGType (box? a b c d) ud (pPlain r2)
+    | some (ud, "cat" :: r2) => runGType (box? a b c d) ud (pCat r2)
+    | _ => "bad-op"
   | "graphic" :: a :: b :: c :: d :: "plain" :: rest => runGraphic (box? a b c d) (pPlain rest)
   | "graphic" :: a :: b :: c :: d :: "cat" :: rest => runGraphic (box? a b c d) (pCat rest)
   | "legend" :: "plain" :: rest => runLegend (pPlain rest)
